@@ -521,7 +521,7 @@ def run(ctx: Ctx) -> None:
                         gen_cfg(invs=LAWS + ["AsBuiltShapeStrict"], dcs="{1}", **small), workers=1)
 
     # ---- 3. code -> spec: random larger values, recorded now, judged by TLC ----------------------
-    n = ctx.pick(300, 6000)
+    n = ctx.pick(300, 4000)
     cases = record_cases(ctx, real, n, depth=ctx.pick(4, 5), width=ctx.pick(3, 4), nleaf=4)
     # negative controls: (a) one yielded leaf dropped, (b) one result leaf changed
     src = next(c for c in cases if c["seam"] == "map" and c["r"]["k"] not in ("error", "leaf", "oleaf", "fset")
